@@ -242,6 +242,8 @@ enum Outcome {
     Hang,
     /// the status, sent 11 s (real time) after the request arrived
     Slow(u16),
+    /// the status, sent 700 ms (real time) after the request arrived
+    Late(u16),
 }
 
 impl Outcome {
@@ -251,6 +253,7 @@ impl Outcome {
             Outcome::Reset => "reset".to_string(),
             Outcome::Hang => "hang".to_string(),
             Outcome::Slow(s) => format!("slow{}", s),
+            Outcome::Late(s) => format!("late{}", s),
         }
     }
 }
@@ -378,6 +381,10 @@ async fn serve_endpoint(
         }
         Outcome::Slow(s) => {
             tokio::time::sleep(Duration::from_secs(11)).await;
+            respond(s)
+        }
+        Outcome::Late(s) => {
+            tokio::time::sleep(Duration::from_millis(700)).await;
             respond(s)
         }
     }
@@ -927,6 +934,10 @@ async fn exec(ctx: &mut Ctx, line: &str) -> OpResult {
                         Ok(s) if (200..1000).contains(&s) => Outcome::Slow(s),
                         _ => return Err(bad(format!("EP: bad outcome '{}'", tok))),
                     },
+                    _ if tok.starts_with("late") => match tok[4..].parse::<u16>() {
+                        Ok(s) if (200..1000).contains(&s) => Outcome::Late(s),
+                        _ => return Err(bad(format!("EP: bad outcome '{}'", tok))),
+                    },
                     _ => match tok.parse::<u16>() {
                         // hyper cannot send a 1xx status as the final answer (it would
                         // put a 500 on the wire), so those are not accepted.
@@ -1349,6 +1360,28 @@ async fn exec(ctx: &mut Ctx, line: &str) -> OpResult {
                 Err(code) => format!("ACK {}", code),
             })
         }
+        "LACK" => {
+            // LACK <sub> <adv_ns> <n> <ackid>{n}: library level: one acknowledge_messages call per id, each awaited until
+            // it has returned; then, with nothing run in between, the clock is advanced by adv_ns.
+            let sub_name = t.str().map_err(bad)?;
+            let ns: u64 = t.num().map_err(bad)?;
+            let n: usize = t.num().map_err(bad)?;
+            let ids = t.strs(n).map_err(bad)?;
+            t.end().map_err(bad)?;
+            let (_, sm, _) = ctx.app.verif_parts();
+            let sub = SubscriptionName::try_parse(&sub_name)
+                .and_then(|n| sm.get_subscription(&n).ok())
+                .ok_or_else(|| bad("LACK: no such subscription".into()))?;
+            let mut ok = 0usize;
+            for id in ids {
+                let ack = deltio::subscriptions::AckId::parse(&id).map_err(|_| bad("LACK: bad ack id".into()))?;
+                if sub.acknowledge_messages(vec![ack]).await.is_ok() {
+                    ok += 1;
+                }
+            }
+            tokio::time::advance(Duration::from_nanos(ns)).await;
+            Ok(format!("LACK {}", ok))
+        }
         "MOD" => {
             let subscription = t.str().map_err(bad)?;
             let ack_deadline_seconds: i32 = t.num().map_err(bad)?;
@@ -1537,6 +1570,22 @@ async fn exec(ctx: &mut Ctx, line: &str) -> OpResult {
                 let _ = tokio::time::timeout(HANG_AFTER, f.as_mut()).await;
             }
             Ok(format!("XC {}", if done { "done" } else { "dropped" }))
+        }
+        "XDT" => {
+            // XDT <topic>: library level: two holders of the topic's handle (two DeleteTopic handlers that have both
+            // looked the name up); the first deletes, the name is created again, then the second deletes.
+            use deltio::topics::TopicName;
+            let topic_name = t.str().map_err(bad)?;
+            t.end().map_err(bad)?;
+            let (tm, _, _) = ctx.app.verif_parts();
+            let name = TopicName::try_parse(&topic_name).ok_or_else(|| bad("XDT: bad name".into()))?;
+            let h1 = tm.get_topic(&name).map_err(|_| bad("XDT: no such topic".into()))?;
+            let h2 = tm.get_topic(&name).map_err(|_| bad("XDT: no such topic".into()))?;
+            let r1 = tokio::time::timeout(HANG_AFTER, h1.delete()).await.map_err(|_| Fail::Hang)?.is_ok();
+            let c = tm.create_topic(name.clone()).is_ok();
+            let r2 = tokio::time::timeout(HANG_AFTER, h2.delete()).await.map_err(|_| Fail::Hang)?.is_ok();
+            let f = |b: bool| if b { "ok" } else { "err" };
+            Ok(format!("XDT {} {} {}", f(r1), f(c), f(r2)))
         }
         "XD2" => {
             // XD2 <k> <y> <fill> <sub> <topic>: two overlapping DeleteSubscription calls at library level. The topic's
